@@ -459,6 +459,25 @@ Proof.
   - destruct e; try (rewrite E; reflexivity). exfalso. eapply Hne. reflexivity.
 Qed.
 
+(* a block that completes restores the statement that was current when it
+   started: an error later in the same tag is not blamed on the block's last
+   statement (a failing block keeps the statement that failed) *)
+Lemma eval_block_S fuel st b : eval_block G (S fuel) st b = eval_block_step (evals_at G fuel) st b.
+Proof. reflexivity. Qed.
+
+Theorem block_restores_stmt fuel st b v st1 :
+  eval_block G (S fuel) st b = ROk (v, st1) -> sstmt st1 = sstmt st.
+Proof.
+  rewrite eval_block_S. unfold eval_block_step. destruct b as [ss].
+  destruct (r_eval_stmts (evals_at G fuel) st ss []) as [[v0 st0]|k st0|site| |]; intros E; inversion E; subst. reflexivity.
+Qed.
+
+Theorem block_error_keeps_stmt fuel st ss k st1 :
+  eval_stmts G fuel st ss [] = RErr k st1 -> eval_block G (S fuel) st (Block ss) = RErr k st1.
+Proof.
+  intros E. rewrite eval_block_S. unfold eval_block_step. unfold eval_stmts in E. rewrite E. reflexivity.
+Qed.
+
 (* ---- C13: a hash literal is evaluated in source order ---- *)
 Lemma eval_pairs_S fuel st ps acc : eval_pairs G (S fuel) st ps acc = eval_pairs_step (evals_at G fuel) st ps acc.
 Proof. reflexivity. Qed.
